@@ -1569,7 +1569,12 @@ impl<'p> Gen<'p> {
             // metric changes
             let mut quiet = vec![false; self.idx.len()];
             if !first {
-                for i in 0..self.idx.len() {
+                // in any order: a higher index may be mid-change (items only, no metadata) when a lower one changes
+                let mut order: Vec<usize> = (0..self.idx.len()).collect();
+                if p.p_prepare > 0.0 {
+                    self.r.shuffle(&mut order);
+                }
+                for i in order {
                     if self.r.chance(p.p_prepare) {
                         quiet[i] = self.r.chance(p.p_quiet_after_prepare);
                         let m = *self.r.weighted(&p.prepare_targets);
